@@ -284,8 +284,9 @@ class Ctx:
             ev["coverage"]["known_findings_seen"] = [k for k, _ in self.known_seen]
         if self.notes:
             ev["coverage"]["notes"] = self.notes
-        os.makedirs(EVIDENCE, exist_ok=True)
-        with open(os.path.join(EVIDENCE, self.pid + ".json"), "w") as f:
+        evdir = EVIDENCE if self.repo == "/repo" else os.path.join(WORK, "evidence-drill")
+        os.makedirs(evdir, exist_ok=True)   # drills against a scratch tree never touch evidence/
+        with open(os.path.join(evdir, self.pid + ".json"), "w") as f:
             json.dump(ev, f, indent=1, sort_keys=True, default=str)
         for fid, what in self.known_seen:
             print("KNOWN-FINDING: property=%s %s %s" % (self.pid, fid, what))
